@@ -20,11 +20,16 @@ type genCtx struct {
 	thor   bool
 }
 
-func (g *genCtx) graph(depth int, parentHasState bool, parentTy int, wide bool) int {
+// underLoop: the graph is run by a node inside a loop body (once per round): no loop of its
+// own, and no Workflow (its lambdas name their outputs after the round).
+func (g *genCtx) graph(depth int, parentHasState bool, parentTy int, wide bool, underLoop bool) int {
 	r := g.r
 	gi := len(g.c.Forest)
 	g.c.Forest = append(g.c.Forest, GraphSpec{})
 	mode := []string{"pregel", "dag", "eager"}[r.Intn(3)]
+	if underLoop {
+		mode = []string{"pregel", "dag"}[r.Intn(2)]
+	}
 	state := r.Chance(8, 10)
 	if depth > 0 {
 		state = r.Chance(6, 10)
@@ -64,7 +69,7 @@ func (g *genCtx) graph(depth int, parentHasState bool, parentTy int, wide bool) 
 			if state {
 				n.Pre = r.Chance(1, 2)
 				n.Post = r.Chance(1, 2)
-			} else if r.Chance(1, 60) {
+			} else if r.Chance(1, 100) {
 				n.Pre = true // malformed: handler without graph state
 			}
 			n.SPre = n.Pre && r.Chance(1, 3)
@@ -78,15 +83,15 @@ func (g *genCtx) graph(depth int, parentHasState bool, parentTy int, wide bool) 
 				n.DelayUs = r.Intn(300)
 			}
 			// malformed: a handler / ProcessState call written for the other state type
-			if state && n.Pre && r.Chance(1, 300) {
+			if state && n.Pre && r.Chance(1, 250) {
 				t := 1 - sty
 				n.PreTy = &t
 			}
-			if state && n.Post && r.Chance(1, 300) {
+			if state && n.Post && r.Chance(1, 250) {
 				t := 1 - sty
 				n.PostTy = &t
 			}
-			if visible && n.PS > 0 && r.Chance(1, 200) {
+			if visible && n.PS > 0 && r.Chance(1, 120) {
 				t := 1 - visTy
 				n.PSTy = &t
 			}
@@ -131,7 +136,7 @@ func (g *genCtx) graph(depth int, parentHasState bool, parentTy int, wide bool) 
 	// a loop (Pregel only): the layers a..b, b a single-node layer, are executed 2-3 (2-4) times
 	var loop *LoopSpec
 	inLoop := map[int]bool{}
-	if mode == "pregel" && r.Chance(1, 3) {
+	if mode == "pregel" && !underLoop && r.Chance(1, 3) {
 		var bs []int
 		for l, ids := range layers {
 			if len(ids) == 1 {
@@ -154,17 +159,18 @@ func (g *genCtx) graph(depth int, parentHasState bool, parentTy int, wide bool) 
 			}
 		}
 	}
-	// nested graphs (not inside a loop body)
+	// nested graphs (a nested graph inside a loop body is executed once per round)
 	if depth < 2 && len(g.c.Forest) < 4 {
 		for i := range nodes {
+			p := 5
 			if inLoop[nodes[i].ID] {
-				continue
+				p = 2
 			}
-			if len(g.c.Forest) < 4 && r.Chance(1, 5) {
+			if len(g.c.Forest) < 4 && r.Chance(1, p) {
 				nodes[i].PS = 0
 				nodes[i].PSTy = nil
 				nodes[i].DelayUs = 0
-				nodes[i].Sub = g.graph(depth+1, visible, visTy, false)
+				nodes[i].Sub = g.graph(depth+1, visible, visTy, false, underLoop || inLoop[nodes[i].ID])
 			}
 		}
 	}
@@ -186,7 +192,7 @@ func sortInts(a []int) {
 func (engine) Generate(r *lib.Rng, tier string, i int) any {
 	c := &Case{X0: int64(r.Intn(1000)), Runs: 1, Yield: r.U64() % 100000}
 	g := &genCtx{r: r, c: c, nextID: 1, thor: tier == "thorough"}
-	g.graph(0, false, 0, true)
+	g.graph(0, false, 0, true, false)
 	if r.Chance(2, 5) {
 		c.Runs = r.Range(2, 3)
 		c.Concurrent = r.Chance(2, 3)
